@@ -7,12 +7,19 @@ package main
 import (
 	"os"
 
+	"github.com/oxia-db/oxia/server/kv"
+
+	"verif/lib/fsnap"
 	"verif/lib/pipeh"
 )
 
 func main() {
+	// + a snapshot installation racing with the follower's own apply loop (real directory: the engine's
+	// background compactions are off for deterministic replay)
+	kv.VerifNoAutoCompactions = true
+	pipeh.Extra = fsnap.BacklogScenarios
 	keep := map[string]bool{"apply-out-of-order": true, "committed-entry-not-applied": true, "acked-write-missing": true,
-		"duplicate-offset": true, "harness-setup": true, "follower-state-not-fold-of-log": true}
+		"duplicate-offset": true, "harness-setup": true, "follower-state-not-fold-of-log": true, "commit-offset-below-installed-snapshot": true}
 	os.Exit(pipeh.Main("C07", os.Getenv("VERIF_STAGE2") != "", keep,
 		"every schedule of writers, WAL sync thread, follower cursors and ack receivers with at most max_dev non-default scheduling choices on the real leader controller; every batch commit of the commit-offset record observed at the kv.Factory seam must be previous+1 (in order, exactly once) and every committed entry must be applied"))
 }
